@@ -7,7 +7,7 @@ import operator
 
 from mc.core import bfs as BFS
 from mc.core.bfs import ANY
-from mc.core.runner import Result, pyasn1_site, exc_text
+from mc.core.runner import guarded, Result, pyasn1_site, exc_text
 from mc.model import x690 as M
 from mc.model import universe as U
 from mc.bind import pyasn1_bind as B
@@ -890,9 +890,9 @@ def shard(tier, i, n, seed):
         if (j + seed) % n != i:
             continue
         if job == 'scalars':
-            scalar_schema_checks(R)
+            guarded(R, lambda: scalar_schema_checks(R), {'subject': 'scalar-schema'}, {'scalar_schema'}, j)
         else:
-            explore(SUBJECTS[job](), depth, R, j)
+            guarded(R, lambda: explore(SUBJECTS[job](), depth, R, j), {'subject': SUBJECTS[job]().name}, {'bfs'}, j)
     return R
 
 
